@@ -88,4 +88,10 @@ def decr (s : Bool) {w : Nat} (x : BitVec w) : BitVec w := wrap w (value s x - 1
 /-- conversion `T(x)` from kind (s, w) to a kind of width w' -/
 def convert (s : Bool) {w : Nat} (x : BitVec w) (w' : Nat) : BitVec w' := wrap w' (value s x)
 
+/-- conversion `string(x)` of an integer x of kind (s, w), as a code point: "Converting a signed or unsigned integer
+    value to a string type yields a string containing the UTF-8 representation of the integer. Values outside the
+    range of valid Unicode code points are converted to "\uFFFD"." -/
+def intToString (s : Bool) {w : Nat} (x : BitVec w) : Int :=
+  if validRune (value s x) then value s x else 0xFFFD
+
 end YaegiVerif.Spec.GoInt
